@@ -115,7 +115,8 @@ Definition remove_payload (idx : Z) : option bytes := Some (s2b "{""idx"":" ++ d
 Definition custom_payload (v : value) : option bytes :=
   match v with VNil => Some [] | VJson j => Some j | VBad _ => None end.
 Definition reset_payload (rid : bytes) : bytes := s2b "{""resources"":[""" ++ rid ++ s2b """]}".
-Definition timeout_payload (ms : Z) : bytes := s2b "timeout:""" ++ dec_Z ms ++ [34].
+(* strconv.FormatInt(int64(d/time.Millisecond), 10) for a duration of us microseconds *)
+Definition timeout_payload (us : Z) : bytes := s2b "timeout:""" ++ dec_Z (Z.quot us 1000) ++ [34].
 Definition ok_payload : bytes := s2b "{""result"":null}".
 Definition missing_payload : bytes :=
   s2b "{""error"":{""code"":""system.internalError"",""message"":""Internal error: missing response""}}".
@@ -227,7 +228,7 @@ Inductive action :=
 | ACustom (name : bytes) (payload : value)
 | AReaccess
 | AReset
-| ATimeout (ms : Z)          (* Request.Timeout(ms * time.Millisecond) *)
+| ATimeout (us : Z)          (* Request.Timeout(us * time.Microsecond) *)
 | AReply.                    (* Request.OK(nil) *)
 
 (* a call request handler (with the reply subject of the request) or a
@@ -277,9 +278,9 @@ Definition event_call_r (ty : rtype) (rid : bytes) (ls : list lst) (a : action) 
 Definition exec_action (cx : ctx) (ty : rtype) (rid : bytes) (ls : list lst) (replied : bool)
     (a : action) : outcome * bool :=
   match a, cx with
-  | ATimeout ms, CtxCall reply =>
-    if (ms <? 0)%Z then (([], Some PNegTimeout), replied)
-    else (([EPublish reply (timeout_payload ms)], None), replied)
+  | ATimeout us, CtxCall reply =>
+    if (us <? 0)%Z then (([], Some PNegTimeout), replied)
+    else (([EPublish reply (timeout_payload us)], None), replied)
   | AReply, CtxCall reply =>
     if replied then (([], Some PReplied), true)
     else (([EPublish reply ok_payload], None), true)
